@@ -143,7 +143,34 @@ pub fn run_child(cmd: &str, arg: &str) -> Result<Value, Fail> {
     serde_json::from_slice(&out.stdout).map_err(|e| Fail::new("harness-child", format!("probe child output not JSON: {}", e)))
 }
 
+/// A configuration passes if the heap is flat from N/2 to N. When it is not, that may still be a
+/// cache which is simply not full yet at N/2 (a larger default geometry is a legitimate change),
+/// so the verdict is taken at 2N, 4N, 8N and 16N as well: a cache of fixed size is full at one of
+/// them and passes there, while growth that follows the number of keys fails at every scale.
 pub fn check(cfg: &Config, rec: &mut Rec) -> Result<Value, Fail> {
+    let mut last = None;
+    for factor in [1u64, 2, 4, 8, 16] {
+        let scaled = Config { n: cfg.n * factor, ..cfg.clone() };
+        match check_at(&scaled, rec) {
+            Ok(mut v) => {
+                if factor > 1 {
+                    if !rec.muted {
+                        rec.class("flat_only_at_a_larger_n(cache not full at N/2)");
+                    }
+                    v["passed_at_n"] = json!(scaled.n);
+                }
+                return Ok(v);
+            }
+            Err(f) if f.sig == "heap-grows-with-n" || f.sig == "heap-blocks-grow-with-n" => last = Some(f),
+            Err(f) => return Err(f),
+        }
+    }
+    let mut f = last.unwrap();
+    f.msg = format!("{} - and at 2x, 4x, 8x and 16x as many keys alike (the message shows the largest scale)", f.msg);
+    Err(f)
+}
+
+fn check_at(cfg: &Config, rec: &mut Rec) -> Result<Value, Fail> {
     rec.eval();
     let m = run_child("child-mem-build", &serde_json::to_string(&cfg.to_json()).unwrap())?;
     let g = |k: &str| m.get(k).and_then(|x| x.as_u64()).unwrap_or(0);
@@ -198,7 +225,7 @@ pub fn check(cfg: &Config, rec: &mut Rec) -> Result<Value, Fail> {
 }
 
 pub fn run(e: &Engine) {
-    e.set_rule("cases are (N, fan-out F, key length L, set/map, cache geometry): key sequences with bounded fan-out and length and an unbounded number of distinct nodes (base-F counter prefix + hashed suffix) streamed to a discarding sink (taking every write whole, or at most 1/3/4/8 bytes per call with every 7th call interrupted) inside a single-threaded child process with a counting global allocator; live heap is sampled after N/2 keys and the peak is tracked from there to the end of finish(); violation iff peak > 1.10 * live(N/2) + 128 KiB (+ 8 KiB only, for caches of <= 256 cells), or iff the number of live heap blocks rises by more than 64 (caches of <= 256 cells) / 1024 (larger caches) after N/2; non-trivial = the eviction hook counted more than 10x the number of cache cells (the cache was forced to forget); distinct by configuration");
+    e.set_rule("cases are (N, fan-out F, key length L, set/map, cache geometry): key sequences with bounded fan-out and length and an unbounded number of distinct nodes (base-F counter prefix + hashed suffix) streamed to a discarding sink (taking every write whole, or at most 1/3/4/8 bytes per call with every 7th call interrupted) inside a single-threaded child process with a counting global allocator; live heap is sampled after N/2 keys and the peak is tracked from there to the end of finish(); violation iff, at N and at 2N, 4N, 8N and 16N alike (a cache that is merely not full yet passes at one of them), peak > 1.10 * live(N/2) + 128 KiB (+ 8 KiB only, for caches of <= 256 cells), or iff the number of live heap blocks rises by more than 64 (caches of <= 256 cells) / 1024 (larger caches) after N/2; non-trivial = the eviction hook counted more than 10x the number of cache cells (the cache was forced to forget); distinct by configuration");
     e.assume("an asymptotic claim checked at finitely many N; growth slower than 5% per doubling would pass");
     let n: u64 = e.tier.pick(1_500_000, 4_000_000);
     let mut cfgs = vec![];
